@@ -158,6 +158,24 @@ def sc_cancel_split(k):
             "0 cycleAtPush %d" % k, "0 root z 7a 2 0 1", "0 inlineReport", "0 child1 y 79 z", "0 drop y", "0 drop z", "0 cycle", "0 cycle", "0 stats"]
 
 
+def sc_cancel_parked_elsewhere(variant):
+    """D21: cancel() on a thread whose queue is full (the signal is parked there), the root finishes on ANOTHER thread.
+    variant 'plain': whole cycles; 'second-pass': the root finishes while a stepped cycle is in its second pass, so the
+    commit is deferred to the next cycle; 'exit': the cancelling thread exits with the signal still parked (it is lost,
+    D3) before the root finishes; 'default': not cancelable — cancel() is a no-op and the trace is delivered."""
+    cancelable = 0 if variant == "default" else 1
+    p = ["0 spawn", "1 spawn", "0 setReporter %d" % cancelable, "0 touch", "1 touch",
+         "0 root r 72 1 0 1", "0 child1 c 63 r", "0 drop c", "0 spam %d" % (CAP + 60), "0 cancel r"]
+    if variant == "second-pass":
+        p += ["0 cycBegin", "0 cycStep", "0 cycStep", "0 cycStep", "0 cycStep", "1 drop r", "0 cycStep", "0 cycStep", "0 cycStep", "0 cycle"]
+    elif variant == "exit":
+        p += ["0 exit", "1 drop r", "1 cycle"]
+        return p + ["1 cycle", "1 root z 7a 3 0 1", "1 drop z", "1 cycle", "1 stats"]
+    else:
+        p += ["1 drop r", "0 cycle"]
+    return p + ["0 cycle", "0 root z 7a 3 0 1", "0 drop z", "0 cycle", "0 stats"]
+
+
 def sc_start_parked(cancelable):
     """a trace is started on a thread whose queue is full (the start may be lost, C09) and its root is finished on
     another thread; whatever happens to the trace, once everything has been consumed the collector retains nothing"""
@@ -211,6 +229,17 @@ def check_scenarios(impl_by_tag):
                 f.append("records %s of the cancelled trace were delivered: the parked cancel reached the collector after the parked finish" % bad)
             if sorted(x for x in n if x in "zy") != ["y", "z"]:
                 f.append("the trace started after the queue had drained was not delivered completely: %s" % n)
+        if tag.startswith("cancel-parked-") and not tag.endswith("default"):
+            bad = [x for x in n if x in ("r", "c")]
+            if bad:
+                f.append("records %s of the cancelled trace were delivered: cancel() was called on a thread whose queue was full, "
+                         "the root finished on another thread and its commit overtook the parked cancel" % bad)
+            if n.count("z") != 1:
+                f.append("the trace started afterwards was not delivered exactly once: %s" % n)
+        if tag == "cancel-parked-default":
+            if n.count("c") != 1 or n.count("z") != 1:
+                f.append("default configuration: cancel() is a no-op; the child finished before the episode and the later trace "
+                         "must be delivered exactly once: %s" % n)
         if tag.startswith("start-parked"):
             if sorted(x for x in n if x == "z") != ["z"]:
                 f.append("the trace started after the queue had drained was not delivered: %s" % n)
